@@ -21,6 +21,20 @@ Clauses (each its own bounded group):
                     (a None entry = "unknown" is always sound and accepted)
   c04.stats.sorted  a column listed by sorted_partitioned_columns really is sorted across row groups
                     (max of group i < min of group i+1 on the DATA) and its listed bounds equal the oracle
+  c04.stats.exposed a bound the footer CARRIES is a bound the user is shown: when every row group's chunk of a
+                    column carries a decodable min (max), ParquetFile.statistics has a non-None entry per row group
+                    for it (equality with the stored value is c04.stats.user's business); when in addition the
+                    stored bounds satisfy min <= max per group and max of group i < min of group i+1, the column is
+                    listed by sorted_partitioned_columns with exactly those bounds.  ("None = unknown" stays
+                    acceptable only where some row group's chunk carries no such bound.)  This is the clause that
+                    sees a FALSY stored bound - the empty string / empty bytes, the minimum of every text or bytes
+                    chunk that holds '' / b'' - being mistaken for an absent one.
+
+Scenario class added for that clause (dtypes `<text|bytes>+empties`): text (str / object / string dtype) and
+bytes columns whose leading third of the rows is '' / b'' and whose other values are non-empty, so that under
+the row-group splits of the option tuples there are chunks with min == max == '' (all-empty chunk), chunks with
+min == '' < max, all-empty single-row-group files, the same next to nulls, and - with ascending value order - a
+column that IS sorted across row groups starting with an all-empty group.
 
 Excluded inputs (the stored values differ from the input by C01 known findings, so "the value actually
 stored" cannot be derived from the input): timedelta64[ms|s]; times='int96' with a datetime64 unit other
@@ -42,6 +56,8 @@ from runtime.harness import Case, import_fastparquet, tmpdir
 from spec import thrift_idl
 
 G_RAW, G_USER, G_SORTED = "c04.stats.raw", "c04.stats.user", "c04.stats.sorted"
+G_EXPOSED = "c04.stats.exposed"
+GROUPS = (G_RAW, G_USER, G_SORTED, G_EXPOSED)
 CONTRACT = {
     G_RAW: "ensure(write): for every row group x column the footer Statistics (decoded independently) carry "
            "min/max == oracle(min/max of the stored non-null values under the Parquet order of the type) or no "
@@ -49,6 +65,10 @@ CONTRACT = {
     G_USER: "ensure(write): every non-None entry of ParquetFile.statistics['min'|'max'|'null_count'] equals the oracle",
     G_SORTED: "ensure(write): c in sorted_partitioned_columns(pf) => data of c is strictly increasing across row "
               "groups and the listed min/max equal the oracle",
+    G_EXPOSED: "ensure(write): for every column and which in (min, max): every row group's chunk carries a decodable "
+               "`which` (an EMPTY byte string is a bound like any other) => ParquetFile.statistics[which][column] has "
+               "one non-None entry per row group; and stored min <= max per group with max[i] < min[i+1] for all i "
+               "=> column in sorted_partitioned_columns(pf) with those bounds",
 }
 ORDERS = ["scrambled", "ascending", "descending", "constant"]
 EXCLUDED_DTYPES = ["timedelta64[ms]", "timedelta64[s]"]
@@ -108,8 +128,46 @@ def _arranged(vals, order):
     return sorted(vals, key=_value_sort_key, reverse=order == "descending")
 
 
+EMPTIES = "+empties"
+EMPTY_BOUND_DTYPES = [d + EMPTIES for d in ("str", "object_str", "string", "bytes")]
+
+
+def base_dtype(dt):
+    return dt[:-len(EMPTIES)] if dt.endswith(EMPTIES) else dt
+
+
+def empties_series(dtype, n, nulls):
+    """Text / bytes column whose first max(n // 3, 1) rows are the EMPTY value and whose other values are
+    non-empty and distinct from each other where the pool allows (null pattern applied on top)."""
+    base = base_dtype(dtype)
+    empty = b"" if base == "bytes" else ""
+    fill = b"\x01" if base == "bytes" else "e"
+    vals = [v if len(v) else fill for v in D.values(base, n)]
+    k = max(n // 3, 1)
+    vals[:k] = [empty] * min(k, n)
+    s = pd.Series(vals, dtype={"str": "str", "string": "string"}.get(base, object))
+    m = D.null_mask(n, nulls)
+    if m.any():
+        if base in ("object_str", "bytes"):
+            s = s.copy()
+            s[m] = None
+        else:
+            s = s.mask(m)
+    s.name = "x"
+    return s
+
+
+def base_frame(f):
+    if f["dtype"].endswith(EMPTIES):
+        df = pd.DataFrame({"x": empties_series(f["dtype"], f["rows"], f.get("nulls", "none"))})
+        if f.get("index", "range") != "range":
+            df.index = D.make_index(f["index"], f["rows"])
+        return df
+    return D.frame_from_features(f)
+
+
 def frame_from_features(f):
-    df = D.frame_from_features(f)
+    df = base_frame(f)
     order = f.get("order", "scrambled")
     if order != "scrambled":
         df = pd.DataFrame({c: reorder(df[c], order) for c in df.columns}, index=df.index)
@@ -283,7 +341,7 @@ def check_statistics(fp, path, df, options):
     """-> dict clause -> None | what differs, plus counters."""
     idl = thrift_idl.load()
     hive = options.get("file_scheme", "simple") != "simple"
-    verdict = {G_RAW: None, G_USER: None, G_SORTED: None, "compared": 0, "listed": 0}
+    verdict = {G_RAW: None, G_USER: None, G_SORTED: None, G_EXPOSED: None, "compared": 0, "listed": 0, "exposed": 0}
     cols, idx_cols = written_frame(df, options.get("write_index"))
     fmd, _ = thrift_idl.dec(idl, "FileMetaData", read_footer(path, hive), strict=False)
     schema = {se["name"].decode() if isinstance(se["name"], bytes) else se["name"]: se for se in fmd["schema"][1:]}
@@ -394,6 +452,45 @@ def check_statistics(fp, path, df, options):
                     break
             if verdict[G_USER]:
                 break
+    # -- exposed clause: a bound carried by every row group's chunk is shown, and a column whose STORED bounds
+    #    increase strictly across row groups is listed with them
+    for name, decs in rawdec.items():
+        if verdict[G_EXPOSED] is not None:
+            break
+        if not decs or any(d["json"] for d in decs):
+            continue
+        carried = {}
+        for which in ("min", "max"):
+            carried[which] = all(d[which] is not None and d[which][0] != "undecodable" for d in decs)
+            if not carried[which]:
+                continue
+            verdict["exposed"] += len(decs)
+            lst = user.get(which, {}).get(name)
+            if lst is None or len(lst) != len(decs) or any(v is None for v in lst):
+                gi = next((i for i, v in enumerate(lst or []) if v is None), 0)
+                verdict[G_EXPOSED] = (f"every row group's chunk of {name!r} carries a {which} (row group {gi}: "
+                                      f"{decs[min(gi, len(decs) - 1)][which][1]!r}) but ParquetFile.statistics"
+                                      f"[{which!r}][{name!r}] = {lst!r}")
+                break
+        if verdict[G_EXPOSED] is None and carried["min"] and carried["max"] and name in pf.columns:
+            try:
+                increasing = (all(d["min"][1] <= d["max"][1] for d in decs)
+                              and all(a["max"][1] < b["min"][1] for a, b in zip(decs[:-1], decs[1:])))
+            except TypeError:
+                increasing = False
+            if increasing:
+                verdict["exposed"] += 1
+                if name not in spc:
+                    verdict[G_EXPOSED] = (f"the stored bounds of {name!r} increase strictly across row groups "
+                                          f"(min {[d['min'][1] for d in decs][:4]!r}, max {[d['max'][1] for d in decs][:4]!r}) "
+                                          f"but sorted_partitioned_columns lists only {sorted(spc)!r}")
+                else:
+                    for which in ("min", "max"):
+                        got = [_canon_scalar(v) for v in spc[name][which]]
+                        if len(got) != len(decs) or not all(same_stat(g, d[which]) for g, d in zip(got, decs)):
+                            verdict[G_EXPOSED] = (f"{name!r}: listed {which} {spc[name][which]!r} differ from the "
+                                                  f"stored {[d[which][1] for d in decs]!r}")
+                            break
     # -- sorted clause
     verdict["listed"] = len(spc)
     for name, bounds in spc.items():
@@ -440,7 +537,7 @@ def checked_write_factory(fp, verdict):
             import traceback
             verdict[G_RAW] = f"statistics could not be obtained: {type(e).__name__}: {str(e)[:200]} " \
                              f"[{traceback.format_exc().splitlines()[-3].strip()[:120]}]"
-        bad = [verdict.get(g) for g in (G_RAW, G_USER, G_SORTED) if verdict.get(g)]
+        bad = [verdict.get(g) for g in GROUPS if verdict.get(g)]
         return True if not bad else "; ".join(bad)
 
     @deal.ensure(post)
@@ -470,13 +567,39 @@ def run_case(fp, features, scratch):
             shutil.rmtree(path, ignore_errors=True)
         elif os.path.exists(path):
             os.remove(path)
-    for g in (G_RAW, G_USER, G_SORTED):
+    for g in GROUPS:
         res[g] = verdict.get(g)
     res["compared"], res["listed"] = verdict.get("compared", 0), verdict.get("listed", 0)
+    res["exposed"] = verdict.get("exposed", 0)
     res["user_compared"] = verdict.get("user_compared", 0)
     res["evaluations"] = verdict.get("evaluations", 0)
     res["cat_order"] = cat_order_feature(df, kwargs)
+    res["empty_bound"] = empty_bound_feature(df, kwargs)
     return res
+
+
+def empty_bound_feature(df, kwargs):
+    """Input-side description of the text / bytes data columns that get statistics (stats=True or named):
+       '-'    no row group of such a column holds an empty value ('' / b'')
+       'min'  some row group's least value is empty while its greatest is not
+       'all'  some row group's non-null values are all empty (min == max == empty)
+       'min+all' both occur"""
+    stats = kwargs.get("stats", "auto")
+    sizes = [z for z in D.row_group_sizes(len(df), kwargs.get("row_group_offsets")) if z > 0]
+    got = set()
+    for c in df.columns:
+        if not (stats is True or (isinstance(stats, (list, tuple)) and str(c) in stats)):
+            continue
+        s = df[c]
+        if not (s.dtype == object or str(s.dtype) in ("str", "string")):
+            continue
+        start = 0
+        for z in sizes:
+            vals = [v for v in s.iloc[start:start + z] if isinstance(v, (str, bytes))]
+            start += z
+            if vals and any(len(v) == 0 for v in vals):
+                got.add("all" if all(len(v) == 0 for v in vals) else "min")
+    return "+".join(sorted(got, key=["min", "all"].index)) or "-"
 
 
 def cat_order_feature(df, kwargs):
@@ -583,6 +706,14 @@ def enumerate_cases(tier, seed=0):
         for k, (n, p) in enumerate(shapes):               # every shape is used
             for r in range(reps):
                 cases.append({"dtype": dt, "rows": n, "nulls": p, "index": "range", **opts[(k * reps + r + 2 * di) % len(opts)]})
+    # text / bytes columns with EMPTY values (falsy bounds): statistics switched on, every option tuple, every shape
+    for di, dt in enumerate(EMPTY_BOUND_DTYPES):
+        shapes = [(n, p) for n in rows for p in D.null_patterns(base_dtype(dt), n)]
+        for k, o in enumerate(opts):
+            for n, p in (shapes if tier == "thorough" else [shapes[(k * 5 + di) % len(shapes)],
+                                                           shapes[(k * 7 + 3 * di + 1) % len(shapes)]]):
+                cases.append({"dtype": dt, "rows": n, "nulls": p, "index": "range",
+                              **dict(o, stats=True if o["stats"] == "auto" else o["stats"])})
     for name in ("mixed_all", "mixed_num", "mixed_obj", "mixed_time"):
         for n in ([9, 65] if tier == "quick" else [1, 9, 65, 8193]):
             for p in ("none", "some", "all"):
@@ -596,7 +727,7 @@ def enumerate_cases(tier, seed=0):
     for c in cases:
         if not admissible(c):
             continue
-        c.update(D.derived_features(c))
+        c.update(D.derived_features(dict(c, dtype=base_dtype(c["dtype"]))))
         key = tuple(sorted((k, str(v)) for k, v in c.items()))
         if key not in seen:
             seen.add(key)
@@ -666,7 +797,7 @@ def run_cases(cases, workers=None):
             yield c, r
         elif kind == "crash":
             yield c, {"status": "fail", G_RAW: "interpreter crashed during write / statistics: " + r, G_USER: None,
-                      G_SORTED: None, "compared": 0, "listed": 0, "user_compared": 0, "evaluations": 1, "cat_order": "-"}
+                      G_SORTED: None, G_EXPOSED: None, "exposed": 0, "compared": 0, "listed": 0, "user_compared": 0, "evaluations": 1, "cat_order": "-"}
         else:
             yield c, {"status": "engine", "what": r}
 
@@ -678,8 +809,11 @@ RULE = ("single-column frames over the dtypes of C01's quantifier except {excl} 
         "tuple of a 3-wise covering array ({k} tuples) over row_group_offsets none/int/list x stats True/auto/list x "
         "pages 1/2/3 x DATAPAGE_VERSION 1/2 x has_nulls True/False/infer x times x file_scheme x codec x write_index "
         "x value order; plus 4 mixed multi-column frames x all tuples and frames with stored int/str/datetime/multi "
-        "indexes. BOUND: rows <= 8193, <= 8 columns. Non-trivial when at least one min/max was compared "
-        "(raw/user) resp. at least one column was listed (sorted).")
+        "indexes; plus text/bytes columns with EMPTY values ({ne} dtypes '<str|object_str|string|bytes>+empties': leading "
+        "third of the rows '' / b'', so that chunks with min == max == '' and chunks with min == '' < max occur, with "
+        "and without nulls) x every option tuple with stats forced on (True / list). BOUND: rows <= 8193, <= 8 columns. "
+        "Non-trivial when at least one min/max was compared (raw/user), at least one column was listed (sorted), at "
+        "least one stored bound had to be exposed (exposed).")
 
 
 def run_bounded(ctx):
@@ -688,8 +822,8 @@ def run_bounded(ctx):
     opts = option_features(ctx.tier)
     rule = RULE.format(excl=EXCLUDED_DTYPES, n=len(D.DTYPES) - len(EXCLUDED_DTYPES),
                        rows=[1, 7, 9, 65, 8193] if ctx.tier == "quick" else [1, 7, 8, 9, 63, 64, 65, 8193],
-                       k=len(opts))
-    for g in (G_RAW, G_USER, G_SORTED):
+                       k=len(opts), ne=len(EMPTY_BOUND_DTYPES))
+    for g in GROUPS:
         ctx.bounded_group(g, rule=rule)
     t0 = time.time()
     n_eval = n_raised = n_compared = n_listed = 0
@@ -708,8 +842,10 @@ def run_bounded(ctx):
         n_listed += res["listed"]
         feats = dict(features)
         feats["cat_order"] = res["cat_order"]
-        for g in (G_RAW, G_USER, G_SORTED):
-            nontrivial = {G_RAW: res["compared"], G_USER: res.get("user_compared", 0), G_SORTED: res["listed"]}[g] > 0
+        feats["empty_bound"] = res.get("empty_bound", "-")
+        for g in GROUPS:
+            nontrivial = {G_RAW: res["compared"], G_USER: res.get("user_compared", 0), G_SORTED: res["listed"],
+                          G_EXPOSED: res.get("exposed", 0)}[g] > 0
             with Case(ctx, g, feats, snippet=make_snippet(features, g), nontrivial=nontrivial, contract=CONTRACT[g]) as c:
                 if res.get(g):
                     c.fail(res[g])
